@@ -30,32 +30,33 @@ type Prog struct {
 	FuncByLit map[*ast.FuncLit]*Func
 	VarOwner  map[*types.Var]*Func // function whose body (or signature) declares the variable
 
-	pathsMemo     map[*Func][]*Path
-	pathsBusy     map[*Func]bool
-	summaryMemo   map[*Func]*Summary
-	retMemo       map[*Func][]*Term
-	predMemo      map[*Func]*Term
-	resEqMemo     map[*Func][]*Term
-	valueMemo     map[*Func]*Term
-	errCtorMemo   map[string]int
-	globalMemo    map[*types.Var]*Term
-	globalBusy    map[*types.Var]bool
-	globalInit    map[*types.Var]ast.Expr
-	globalPkgOf   map[*types.Var]*packages.Package
-	globalMutated map[*types.Var]bool
-	inlineMemo    map[*Func]bool
-	refs          map[*types.Func]int
-	refCaller     map[*types.Func]*Func
-	refsOther     map[*types.Func]int
-	spliceHosts   []*Func
-	spliceBind    map[*Func]map[string]*Term
-	forceSplice   map[*Func]map[*Func]bool // host -> callees a rule asked to walk in place
-	elemMemo      map[*Func]*Term
-	predDone      map[*Func]bool
-	anchors       map[string]types.Object
-	kt            *KeyTable
-	reach         map[*Func]bool
-	calleeMemo    map[*Func][]*Func
+	pathsMemo      map[*Func][]*Path
+	pathsBusy      map[*Func]bool
+	summaryMemo    map[*Func]*Summary
+	retMemo        map[*Func][]*Term
+	predMemo       map[*Func]*Term
+	resEqMemo      map[*Func][]*Term
+	valueMemo      map[*Func]*Term
+	errCtorMemo    map[string]int
+	globalMemo     map[*types.Var]*Term
+	globalBusy     map[*types.Var]bool
+	globalInit     map[*types.Var]ast.Expr
+	globalPkgOf    map[*types.Var]*packages.Package
+	globalMutated  map[*types.Var]bool
+	inlineMemo     map[*Func]bool
+	refs           map[*types.Func]int
+	refCaller      map[*types.Func]*Func
+	refsOther      map[*types.Func]int
+	spliceHosts    []*Func
+	spliceBind     map[*Func]map[string]*Term
+	forceSplice    map[*Func]map[*Func]bool // host -> callees a rule asked to walk in place
+	localBlockMemo map[*Func]bool
+	elemMemo       map[*Func]*Term
+	predDone       map[*Func]bool
+	anchors        map[string]types.Object
+	kt             *KeyTable
+	reach          map[*Func]bool
+	calleeMemo     map[*Func][]*Func
 
 	Stats struct {
 		Files, FuncsAnalysed, CallSites, Paths int
